@@ -1120,7 +1120,7 @@ hwloc__find_groups_by_min_distance(unsigned nbobjs,
               if (!groupids[k] && !hwloc_compare_values(VALUE(j, k), min_distance, accuracy)) {
 	      groupids[k] = groupid;
 	      size++;
-	      if (newfirstfound == (unsigned)-1)
+	      if (newfirstfound == (unsigned)-1 || k < newfirstfound)
 		newfirstfound = k;
 	      if (i == j)
 		hwloc_debug("  object %u is minimally connected to %u\n", k, i);
